@@ -455,6 +455,7 @@ def _run_property(pid, tier, prop, seed, workdir, evid_path, t0):
     engines = []
     total_eval = total_nt = total_distinct = 0
     classes = {}
+    sums = {}
     samples = []
     all_exh = True
     inconclusive = []
@@ -483,6 +484,8 @@ def _run_property(pid, tier, prop, seed, workdir, evid_path, t0):
             exh = exh and s.get('exhaustive', False)
             for k, v in s.get('classes', {}).items():
                 scls[k] = scls.get(k, 0) + v
+            for k, v in s.get('sums', {}).items():
+                sums[k] = sums.get(k, 0) + v
             if 'distinct_direct' in s:
                 direct_distinct += s['distinct_direct']
             else:
@@ -515,7 +518,7 @@ def _run_property(pid, tier, prop, seed, workdir, evid_path, t0):
                 starved.append('%s=%d (<%d)' % (k, classes.get(k, 0), mn))
     ev = dict(property_id=pid, tier=tier, seed=seed, level='exploration',
               coverage=dict(evaluations=total_eval, distinct_nontrivial=total_distinct, rule=prop['rule'],
-                            samples=samples, classes=classes, exhaustive=bool(any(e['exhaustive'] for e in engines)),
+                            samples=samples, classes=classes, counters=sums, exhaustive=bool(any(e['exhaustive'] for e in engines)),
                             exhaustive_scope=[e['what'] or e['harness'] for e in engines if e['exhaustive']],
                             engines=engines, nontrivial_total=total_nt,
                             regression_cases_replayed=len(regress), inconclusive=inconclusive,
